@@ -211,13 +211,24 @@ impl Context
             {
                 yaml.insert_str(0, Context::CACHE_EDIT_WARNING);
 
-                if let Err(e) = std::fs::write(cache_path, yaml)
+                /*
+                 * Replace the lock file atomically: an interrupted write must never leave a
+                 * truncated lock behind, because a lock that can't be parsed is ignored.
+                 */
+                let scratch_path = std::path::Path::new(directory_path)
+                    .join(format!("{}.tmp", Context::CACHE_FILENAME));
+
+                if let Err(e) = std::fs::write(&scratch_path, yaml)
+                    .and_then(|_| std::fs::rename(&scratch_path, &cache_path))
                 {
                     log::warn!(
                         "[ref: 33] Failed to write lock file {}: {}",
                         Context::CACHE_FILENAME,
                         e
                     );
+
+                    if std::fs::remove_file(&scratch_path).is_ok()
+                    {}
                 }
             },
             Err(e) => log::warn!(
